@@ -98,7 +98,9 @@ pub fn serialise(recs: &[Rec], ser: Ser) -> (Vec<u8>, Vec<usize>) {
                 t.extend_from_slice(format!("@{}\n", r.header).as_bytes());
                 t.extend_from_slice(&r.bases);
                 t.extend_from_slice(b"\n+\n");
-                t.extend(std::iter::repeat(b'I').take(r.bases.len()));
+                // quality strings may legally start with the characters that also mark records ('@', '+', '>')
+                let lead = [b'@', b'+', b'I', b'>'][i % 4];
+                t.extend((0..r.bases.len()).map(|j| if j == 0 { lead } else { b'!' + ((i + j) % 60) as u8 }));
                 t.push(b'\n');
             }
         }
@@ -152,7 +154,8 @@ fn c06_read(ctx: &mut Ctx, recs: &[Rec], ser: Ser, container: &str, bytes: &[u8]
     ctx.journal.note(|| format!("C06 {:?} ser={} container={} argv={:?}", recs, ser.code(), container, argv));
     ctx.rep.evaluations += 1;
     let size = bytes.len();
-    let what = format!("{} record(s) {:?} as {} in {} ({} bytes, suffix {}{})", recs.len(), recs.iter().map(|r| (r.header.clone(), show(&r.bases))).collect::<Vec<_>>(), ser.code(), container, bytes.len(), suffix, if gz { ".gz" } else { "" });
+    let cap = |t: String| if t.len() > 80 { format!("{}...({} chars)", &t[..60], t.len()) } else { t };
+    let what = format!("{} record(s) {:?} as {} in {} ({} bytes, suffix {}{})", recs.len(), recs.iter().map(|r| (cap(r.header.clone()), cap(show(&r.bases)))).collect::<Vec<_>>(), ser.code(), container, bytes.len(), suffix, if gz { ".gz" } else { "" });
     let fmt = match SeqFormat::get(&path) {
         Some(f) => f,
         None => return viol(ctx, "suffix-not-recognised", size, format!("SeqFormat::get({path:?}) = None"), argv),
@@ -199,7 +202,7 @@ fn c06_read(ctx: &mut Ctx, recs: &[Rec], ser: Ser, container: &str, bytes: &[u8]
 
 fn rec_variants() -> Vec<Rec> {
     let mut v = Vec::new();
-    for h in ["a", "b12 desc more"] {
+    for h in ["a", "b12 desc >more @x +y"] {
         for b in [&b""[..], b"A", b"CG", b"ACGTN"] {
             v.push(Rec {
                 header: h.to_string(),
@@ -369,6 +372,25 @@ pub fn c06(ctx: &mut Ctx) {
                     c06_read(ctx, &recs, ser, cont, &bytes, case_no, argv);
                     ctx.rep.count("files.long_records", 1);
                 }
+            }
+        }
+    }
+    // very long header lines (id and description beyond the usual 8 KiB line buffers)
+    for (idlen, desclen) in [(10usize, 9000usize), (9000, 0), (8191, 1), (70_000, 70_000)] {
+        for ser in [Ser::FastaLine, Ser::Fastq, Ser::FastaCrlf] {
+            for cont in ["plain", "gz1-l6"] {
+                if !sh.mine() {
+                    continue;
+                }
+                let id: String = (0..idlen).map(|i| (b'a' + (i % 26) as u8) as char).collect();
+                let header = if desclen > 0 { format!("{} {}", id, "d".repeat(desclen)) } else { id.clone() };
+                let recs = vec![Rec { header, bases: b"ACGTN".to_vec() }, Rec { header: "second x".into(), bases: b"GG".to_vec() }];
+                let (text, bounds) = serialise(&recs, ser);
+                let bytes = container_bytes(&text, &bounds, cont);
+                case_no += 1;
+                let argv = vec!["case".to_string(), "C06header".to_string(), idlen.to_string(), desclen.to_string(), ser.code(), cont.to_string()];
+                c06_read(ctx, &recs, ser, cont, &bytes, case_no, argv);
+                ctx.rep.count("files.long_headers", 1);
             }
         }
     }
@@ -614,7 +636,7 @@ pub fn c07_configs(ctx: &mut Ctx) {
     }
     let mut sh = ctx.shard;
     // (threads, memory ceiling): 6 GB = one chunk; tiny ceilings = base limit 0/1/2 bases and dozens of partitions
-    let cfgs: Vec<(usize, f64)> = vec![(1, 6.0), (2, 6.0), (4, 1e-8), (2, 4e-9), (16, 2e-8), (3, 1e-9)];
+    let cfgs: Vec<(usize, f64)> = vec![(1, 6.0), (2, 6.0), (4, 1e-8), (2, 4e-9), (16, 2e-8), (3, 1e-9), (1, 4e-9), (1, 1.7e-8)];
     let mut n = 0u64;
     for l in &lists {
         for k in 1..=ctx.pick(2, 3) {
@@ -653,7 +675,7 @@ pub fn c07_configs(ctx: &mut Ctx) {
     if ctx.shard.is_first() {
         ctx.rep.sample("records [\"ACA\",\"CAC\"] k=2 threads=4 memory=1e-8 GB (base limit 1, ~dozen partitions), numeric output, merge(false)".to_string());
         ctx.rep.sample("64 x \"AAAAAAAAAA\" k=4 threads=16 memory=2e-8".to_string());
-        ctx.rep.notes.push(format!("C07 configurations: every single record over {{A,C,G,T,N}}^(<= {}), every pair over {{A,C,T,N}}^(<=2) and over {{A,T,N}}^(<=3) (thorough: also {{A,C,N}}^(<=3), {{A,C,G,T,N}}^(<=2) and triples over {{A,G,T,N}}^(<=2)) x k 1..={} x 6 (threads, ceiling) settings; repetitive inputs for k 3, 4, 15, 31", ctx.pick(4, 5), ctx.pick(2, 3)));
+        ctx.rep.notes.push(format!("C07 configurations: every single record over {{A,C,G,T,N}}^(<= {}), every pair over {{A,C,T,N}}^(<=2) and over {{A,T,N}}^(<=3) (thorough: also {{A,C,N}}^(<=3), {{A,C,G,T,N}}^(<=2) and triples over {{A,G,T,N}}^(<=2)) x k 1..={} x 8 (threads, ceiling) settings incl. one worker with base limits 0 and 2; repetitive inputs for k 3, 4, 15, 31", ctx.pick(4, 5), ctx.pick(2, 3)));
     }
 }
 
@@ -1012,6 +1034,17 @@ pub fn replay(ctx: &mut Ctx, args: &[String]) {
             let (text, bounds) = serialise(&recs, ser);
             let bytes = container_bytes(&text, &bounds, &args[3]);
             c06_read(ctx, &recs, ser, &args[3], &bytes, 0, vec![]);
+        }
+        "C06header" => {
+            let idlen: usize = args[1].parse().unwrap();
+            let desclen: usize = args[2].parse().unwrap();
+            let ser = Ser::parse(&args[3]);
+            let id: String = (0..idlen).map(|i| (b'a' + (i % 26) as u8) as char).collect();
+            let header = if desclen > 0 { format!("{} {}", id, "d".repeat(desclen)) } else { id.clone() };
+            let recs = vec![Rec { header, bases: b"ACGTN".to_vec() }, Rec { header: "second x".into(), bases: b"GG".to_vec() }];
+            let (text, bounds) = serialise(&recs, ser);
+            let bytes = container_bytes(&text, &bounds, &args[4]);
+            c06_read(ctx, &recs, ser, &args[4], &bytes, 0, vec![]);
         }
         "C06size" => {
             let n: usize = args[1].parse().unwrap();
